@@ -1,16 +1,9 @@
-(* C19 -- bounded binary64 statement, part 4 of 4 (computed): for the intervals
-   [1e-06,1e-05], [123456.7,654321.9], [0.0,1e-06], [-1000000.0,1000000.0] (nearest doubles) and every n = 1..2000 the break points of the repaired
-   make_knots pass NpF.bp_ok. *)
-From Coq Require Import PrimFloat List Arith Bool.
+(* C19 -- bounded binary64 statement, chunk 4 of 16 (computed): for the intervals
+   FloatGridDefs.chunk 3 and every n = 1..2000 the break points of the repaired make_knots
+   pass NpF.bp_ok. *)
+From Coq Require Import QArith List Arith Bool.
 From Verif.lib Require Import NpCore NpF.
-Import ListNotations.
-Open Scope float_scope.
+From Verif.C19 Require Import FloatGridDefs.
 
-Definition grid4 : list (float * float) :=
-  [(0x1.0c6f7a0b5ed8dp-20, 0x1.4f8b588e368f1p-17);
-   (0x1.e240b33333333p+16, 0x1.3f7e3cccccccdp+19);
-   (0x0.0p+0, 0x1.0c6f7a0b5ed8dp-20);
-   ((-0x1.e848000000000p+19), 0x1.e848000000000p+19)].
-
-Lemma grid4_ok : grid_check 2000 grid4 = true.
+Lemma grid4_ok : grid_check 2000 (map f_of_qq (chunk 3)) = true.
 Proof. vm_compute. reflexivity. Qed.
